@@ -54,4 +54,12 @@ theorem failstop_sites_as_modelled :
   refine ⟨?_, ?_, ?_⟩ <;> rfl
 
 
+/-- today's SetWriteDeadline only records the deadline; it is applied by Conn.write per frame -/
+theorem set_write_deadline_as_modelled :
+    Gen.stmts_SetWriteDeadline =
+      ["c.writeDeadline = t",
+        "return nil"] := by
+  rfl
+
+
 end WS.Props.C10Tie
